@@ -20,11 +20,14 @@ pub struct Case {
     pub via_blind: bool,
     pub seed: u32,
     pub leaf_edits: usize,
+    /// explicit hidden positions (overrides hidden_mask; for attribute counts above 8)
+    #[serde(default)]
+    pub hidden_list: Vec<usize>,
 }
 
 fn strat(nmax: usize, leaf_edits: usize) -> impl Strategy<Value = Case> {
     (any::<u16>(), 1usize..=nmax, any::<u8>(), prop::collection::vec(0u8..6, 5), prop::bool::weighted(0.25), any::<u32>())
-        .prop_map(move |(key, n, hm, classes, via_blind, seed)| Case { key, n, hidden_mask: hm & ((1u8 << n) - 1), classes, via_blind, seed, leaf_edits })
+        .prop_map(move |(key, n, hm, classes, via_blind, seed)| Case { key, n, hidden_mask: hm & ((1u8 << n) - 1), classes, via_blind, seed, leaf_edits, hidden_list: vec![] })
 }
 
 pub struct Honest<CS: CLCiphersuite> {
@@ -61,6 +64,26 @@ where
     Ok(Honest { cpk, bases, vals, msgs, hidden: hidden.to_vec(), revealed, sig, proof })
 }
 
+/// another set of hidden positions of the same size (first differing candidate in a cheap enumeration)
+fn other_set_same_size(n: usize, hidden: &[usize]) -> Option<Vec<usize>> {
+    if n <= 10 {
+        return subsets(n).into_iter().find(|o| o.len() == hidden.len() && o != hidden);
+    }
+    // large n: move one hidden position to the next free position
+    for (k, &h) in hidden.iter().enumerate() {
+        for d in 1..n {
+            let cand = (h + d) % n;
+            if !hidden.contains(&cand) {
+                let mut o = hidden.to_vec();
+                o[k] = cand;
+                o.sort();
+                return Some(o);
+            }
+        }
+    }
+    None
+}
+
 fn check_one<CS: CLCiphersuite>(rep: &Report, ck: &str, c: &Case, keys: &[ClKey]) -> CheckResult
 where
     CS::HashAlg: digest::Digest,
@@ -68,7 +91,7 @@ where
     let key = &keys[pick(c.key, keys.len())];
     let pk = &key.pk;
     let n = c.n;
-    let hidden: Vec<usize> = (0..n).filter(|i| c.hidden_mask >> i & 1 == 1).collect();
+    let hidden: Vec<usize> = if c.hidden_list.is_empty() { (0..n.min(8)).filter(|i| c.hidden_mask >> i & 1 == 1).collect() } else { c.hidden_list.clone() };
     let cj = |d: Value| json!({"case": c, "key": key.id, "hidden": hidden, "detail": d});
     let mut st = (c.seed as u64) << 6 | 1;
     let vals: Vec<Integer> = (0..n).map(|i| attr(c.classes[i % c.classes.len()], &mut st)).collect();
@@ -129,12 +152,9 @@ where
         reject("other-bases", ver(&h.proof, &h.cpk, pk, &Bases::generate(pk, n), &h.revealed, &hidden, n), "fresh bases".into())?;
     }
     reject("other-commitment-key", ver(&h.proof, &CL03CommitmentPublicKey::generate::<CS>(Some(pk.N.clone()), Some(n)), pk, &h.bases, &h.revealed, &hidden, n), "fresh commitment key over the issuer modulus".into())?;
-    for other_set in subsets(n) {
-        if other_set.len() == hidden.len() && other_set != hidden {
-            // the same number of revealed values, claimed at other positions
-            reject("other-hidden-set", ver(&h.proof, &h.cpk, pk, &h.bases, &h.revealed, &other_set, n), format!("{:?} instead of {:?}", other_set, hidden))?;
-            break;
-        }
+    if let Some(other_set) = other_set_same_size(n, &hidden) {
+        // the same number of revealed values, claimed at other positions
+        reject("other-hidden-set", ver(&h.proof, &h.cpk, pk, &h.bases, &h.revealed, &other_set, n), format!("{:?} instead of {:?}", other_set, hidden))?;
     }
     // hidden-position set extended: positions beyond n (appended / prepended), an extra in-range position
     {
@@ -248,6 +268,20 @@ where
             }
         }
     }
+    // after the refused requests above (several refuse by panicking): the honest proof still verifies on this
+    // thread, and so does a proof generated now
+    rep.eval(ck, 2);
+    if !ver(&h.proof, &h.cpk, pk, &h.bases, &h.revealed, &hidden, n) {
+        return rep.fail(ck, "honest-signature-proof-rejected-after-a-refusal", format!("after the refused requests of this case the honest proof (hidden {:?} of {}) no longer verifies on the same thread", hidden, n), cj(json!({"after": "negative families"})));
+    }
+    match catch(|| PoKSignature::<CL03<CS>>::proof_gen(h.sig.cl03Signature(), &h.cpk, pk, &h.bases, &h.msgs, &hidden)) {
+        Ok(p9) => {
+            if !ver(&p9, &h.cpk, pk, &h.bases, &h.revealed, &hidden, n) {
+                return rep.fail(ck, "honest-signature-proof-rejected-after-a-refusal", format!("a proof generated after the refused requests of this case does not verify (hidden {:?} of {})", hidden, n), cj(json!({"after": "negative families", "generated": "after"})));
+            }
+        }
+        Err(e) => return rep.fail(ck, "honest-generation-failed", format!("proof_gen after refused requests: {}", e), cj(json!(null))),
+    }
     // every integer leaf
     let leaves = int_leaves(&pj);
     let edits = pick_edits(&leaves, c.leaf_edits, &mut st);
@@ -296,7 +330,7 @@ pub fn run(ctx: &Ctx, rep: &Report) -> Meta {
     for n in 1..=nmax {
         for mask in 0u8..(1 << n) {
             k += 1;
-            fixed.push(Case { key: (k * 9973) as u16, n, hidden_mask: mask, classes: vec![5, 4, (k % 6) as u8, 5, 5], via_blind: k % 4 == 0, seed: (ctx.seed as u32).wrapping_add(k), leaf_edits: ctx.tier.pick(24, 0) });
+            fixed.push(Case { key: (k * 9973) as u16, n, hidden_mask: mask, classes: vec![5, 4, (k % 6) as u8, 5, 5], via_blind: k % 4 == 0, seed: (ctx.seed as u32).wrapping_add(k), leaf_edits: ctx.tier.pick(24, 0), hidden_list: vec![] });
         }
     }
     for n in [6usize, 8] {
@@ -315,6 +349,11 @@ pub fn run(ctx: &Ctx, rep: &Report) -> Meta {
         rep.exhaustive(format!("every hidden set (including none and all) for n = 1..={}", nmax));
     }
     let le = ctx.tier.pick(40usize, 120usize);
+    // every attribute count 9..=24 (quick) / 9..=48 (thorough) with two or three hidden positions including the last
+    let sweep: Vec<Case> = (9..=ctx.tier.pick(24usize, 48usize))
+        .map(|n| Case { key: (n * 131) as u16, n, hidden_mask: 0, classes: vec![5, 4, (n % 6) as u8, 5, 5], via_blind: n % 5 == 0, seed: (ctx.seed as u32).wrapping_add(7000 + n as u32), leaf_edits: 8, hidden_list: if n % 2 == 0 { vec![0, n - 1] } else { vec![1, n / 2, n - 1] } })
+        .collect();
+    par_items(ctx, rep, "attribute-count-sweep", &sweep, |c| with_cl!(suite, CS => check_one::<CS>(rep, "attribute-count-sweep", c, &keys)));
     run_cases(ctx, rep, "presentations", ctx.tier.pick(32, 300), 30, || strat(nmax.max(4), le), |c| with_cl!(suite, CS => check_one::<CS>(rep, "presentations", c, &keys)));
     if ctx.tier == Tier::Thorough && !rep.aborted() {
         for (s2, nfix) in [(ClSuite::CL2048, 3usize), (ClSuite::CL3072, 2)] {
@@ -330,7 +369,7 @@ pub fn run(ctx: &Ctx, rep: &Report) -> Meta {
         rule: "signer key from a pool, n attributes, EVERY hidden set (none ... all) for n = 1..3 (quick) / 1..5 (thorough) plus generated cases, signatures issued directly and through blind issuance, commitment key over the issuer modulus; \
                positive: proof_verify true with the revealed attributes in index order, proof survives JSON; negative: every revealed attribute changed, swaps, other signer key (also b or c alone changed), other bases, other commitment key, \
                another hidden set of the same size, n+1 / n-1 (also n+1 and n+3 against key material with spare bases and the true revealed list), range_proof_e replaced by an honest range proof for another commitment, every composite node of the serialised proof replaced by the node at the same path of a second honest proof for other hidden values (same key, bases, commitment key, positions; every second case), and integer leaves of the serialised proof perturbed by +1, -1, := 0, := sibling, one high bit flipped, +2^k for k in {128, 160, 256, 300} \
-               (24-40 sampled perturbations per proof in quick, every leaf in thorough's fixed list); hidden-position list extended by positions >= n (appended, prepended) and by a revealed position, an honest range proof for another value transplanted onto Ce, n = 6 and 8; a refusal by panic counts as not verifying; non-trivial = (n, U) != (3, {0}); evaluations = verifier decisions"
+               (24-40 sampled perturbations per proof in quick, every leaf in thorough's fixed list); hidden-position list extended by positions >= n (appended, prepended) and by a revealed position, an honest range proof for another value transplanted onto Ce, n = 6 and 8, every attribute count 9..=24 (quick) / 9..=48 (thorough) with two or three hidden positions including the last; after the negative families the honest proof and a freshly generated one verify again on the same thread; a refusal by panic counts as not verifying; non-trivial = (n, U) != (3, {0}); evaluations = verifier decisions"
             .into(),
         assumptions: vec!["CL2048/CL3072 in thorough only (fixture primes)".into()],
     }
